@@ -76,6 +76,9 @@ fn main() {
         eprintln!("usage: biomon worker|replay|info <Cxx> ...");
         std::process::exit(2);
     }
+    if args.iter().any(|a| a == "--threads-only") {
+        THREADS_ONLY.store(true, std::sync::atomic::Ordering::Relaxed);
+    }
     let cmd = args[1].as_str();
     let prop = args[2].as_str();
     let mut mon = match monitors::get(prop) {
